@@ -34,6 +34,16 @@ class Sub(T):
 
 
 @dataclass(eq=False)
+class Sub2(T):
+    pass
+
+
+@dataclass(eq=False)
+class Diamond(Sub, Sub2):
+    """reachable from T over two inheritance paths"""
+
+
+@dataclass(eq=False)
 class Falsy(T):
     """a live instance whose truth value is False (a container-like symbol that is empty)"""
 
@@ -162,7 +172,7 @@ Org.members = Member(Org, "members")
 Org.sub_org_of = SubOrgOf(Org, "sub_org_of")
 Org.partner_of = PartnerOf(Org, "partner_of")
 
-CLASSES = {"T": T, "Sub": Sub, "Falsy": Falsy, "SubSub": SubSub, "Other": Other, "Org": Org, "Human": Human}
+CLASSES = {"T": T, "Sub": Sub, "Falsy": Falsy, "Diamond": Diamond, "SubSub": SubSub, "Other": Other, "Org": Org, "Human": Human}
 
 _CD = [None]
 
